@@ -1,8 +1,11 @@
 """Run the repository's pinned test-suite (guard off) and compare with /root/.vp/BASELINE.json stable_pass."""
-import json, os, subprocess, sys, tempfile
+import json, os, signal, subprocess, sys, tempfile
 import xml.etree.ElementTree as ET
 repo = os.environ.get("VERIF_REPO", "/repo")
 base = json.load(open("/root/.vp/BASELINE.json"))
+# a job started with "&" from a non-interactive shell inherits SIGINT ignored; tests/test_saveframe.py sends SIGINT to
+# its children and needs the default disposition
+signal.signal(signal.SIGINT, signal.default_int_handler)
 with tempfile.TemporaryDirectory() as d:
     x = os.path.join(d, "j.xml")
     env = dict(os.environ); env.pop("DESHAW_PYFLYBY_VERIF", None)
